@@ -152,7 +152,10 @@ def build_abandoned(exe, rng, idx):
 def gen_run(exe, rng, tier):
     return (WH.run_parallel(exe, rng, 150 if tier == "quick" else 4000, build_one) +
             WH.run_parallel(exe, rng, 60 if tier == "quick" else 1500, build_abandoned) +
-            WH.run_parallel(exe, rng, 60 if tier == "quick" else 1500, build_udp, jobs=8))
+            WH.run_parallel(exe, rng, 60 if tier == "quick" else 1500, build_udp, jobs=8) +
+            # … and on stream transports: whole TCP connections through the real tcpserverrd / tcpserverwr, with retransmissions of
+            # requests that were answered on the same connection
+            WH.run_parallel(exe, rng, 40 if tier == "quick" else 1500, WH.tcp_history))
 
 
 def gen(rng, tier):
